@@ -316,3 +316,306 @@ Proof.
   destruct r as [w|]; [|exact H1]. destruct w; try exact H1.
   destruct (get_in sc o path i) as [child' r']. cbn [fst]. eapply SV_set; [exact H1 | reflexivity].
 Qed.
+
+(* ---- the decoder: the value a record of a oneof member decodes to is a value ---- *)
+Lemma disjoint_len_packed t : tmem t WIRE_LEN_DELIM_TYPES = true -> tmem t PACKED_TYPES = false.
+Proof. destruct t; vm_compute; congruence. Qed.
+
+Lemma postprocess_varint_vok t v : vok (postprocess_varint t v) = true.
+Proof.
+  unfold postprocess_varint.
+  repeat match goal with |- context [if ?b then _ else _] => destruct b end; reflexivity.
+Qed.
+
+Lemma unpack_value_vok t bs v : unpack_value t bs = Ok v -> vok v = true.
+Proof.
+  unfold unpack_value. destruct (pack_fmt t) as [[]|]; try discriminate;
+    try (destruct (Nat.eqb _ _); [|discriminate]; intros H; injection H as <-; reflexivity);
+    (destruct (unpack_int _ bs); cbn [bind]; [|discriminate]; intros H; injection H as <-; reflexivity).
+Qed.
+
+Ltac crush_ok E :=
+  repeat match type of E with
+         | (do _ <- ?X; _) = Ok _ => destruct X; cbn [bind] in E; try discriminate
+         | match ?X with _ => _ end = Ok _ => destruct X; try discriminate
+         | (if ?b then _ else _) = Ok _ => destruct b; try discriminate
+         end.
+
+Lemma c7_value_vok fuel' sc n f g p value :
+  wf_field sc n f = true -> fgroup f = Some g -> wire_type_fits f (pwt p) = true ->
+  c7_value fuel' sc f p = Ok value -> vok value = true.
+Proof.
+  intros Hwf Hg Hfit E. destruct (wf_member_shape sc n f g Hwf Hg) as ((t & Hh) & Ho & Hw & Hm).
+  unfold c7_value in E.
+  destruct ((pwt p =? WIRE_LEN_DELIM) && tmem (fty f) PACKED_TYPES) eqn:E1.
+  { exfalso. apply andb_prop in E1. destruct E1 as [Ea Eb]. apply Z.eqb_eq in Ea.
+    unfold wire_type_fits in Hfit. rewrite Ea, Hh in Hfit.
+    unfold WIRE_LEN_DELIM, WIRE_VARINT, WIRE_FIXED_32, WIRE_FIXED_64 in Hfit. cbn [Z.eqb Pos.eqb] in Hfit.
+    rewrite andb_false_r, orb_false_r in Hfit. apply disjoint_len_packed in Hfit. congruence. }
+  destruct (pwt p =? WIRE_VARINT).
+  { injection E as <-. apply postprocess_varint_vok. }
+  destruct ((pwt p =? WIRE_FIXED_32) || (pwt p =? WIRE_FIXED_64)).
+  { eapply unpack_value_vok; eauto. }
+  rewrite Hm in E. unfold c7_post_len in E. rewrite Hw, Hh in E. cbn [hint_elem] in E.
+  destruct (ptype_eqb (fty f) TString).
+  { destruct (Utf8.utf8_valid (pbytes p)); [|discriminate]. injection E as <-. reflexivity. }
+  destruct (ptype_eqb (fty f) TMessage); [|injection E as <-; reflexivity].
+  destruct t; try discriminate.
+  - (* message *) destruct (c7_parse_new fuel' sc c (pbytes p)) as [m|]; cbn [bind] in E; [|discriminate].
+    injection E as <-. destruct m; reflexivity.
+  - (* datetime *) crush_ok E. injection E as <-. reflexivity.
+  - (* timedelta *) crush_ok E. injection E as <-. reflexivity.
+Qed.
+
+Lemma getattr_cases'' sc c raw sow unk cur i :
+  (exists e, getattr sc (Obj c raw sow unk cur) i = (Obj c raw sow unk cur, Err e)) \/
+  (exists f v, nth_error (cfields (get_class sc c)) i = Some f /\ group_selects cur f i <> Some false /\
+     ((v = nth i raw PPlaceholder /\ v <> PPlaceholder /\
+       getattr sc (Obj c raw sow unk cur) i = (Obj c raw sow unk cur, Ok v)) \/
+      (v = default_of sc f /\
+       getattr sc (Obj c raw sow unk cur) i = (Obj c (set_nth i v raw) sow unk cur, Ok v)))).
+Proof.
+  unfold getattr. destruct (nth_error _ i) as [f|] eqn:Hf; [|left; eauto].
+  destruct (group_selects cur f i) as [[|]|] eqn:Hs; try (left; eauto; fail).
+  all: destruct (nth i raw PPlaceholder) eqn:En;
+    right; eexists f, _; (split; [reflexivity|]); (split; [congruence|]);
+    first [ right; split; reflexivity | left; split; [reflexivity|]; split; [discriminate | reflexivity] ].
+Qed.
+
+(* one record *)
+Lemma c7_step_sv {A} fuel' sc c raw sow unk cur p (k : obj -> result A) a :
+  wf_schema sc = true -> InvS sc (Obj c raw sow unk cur) -> SV (Obj c raw sow unk cur) ->
+  c7_step fuel' sc (get_class sc c) (Obj c raw sow unk cur) p k = Ok a ->
+  exists o', k o' = Ok a /\ InvS sc o' /\ SV o' /\ ocls o' = c.
+Proof.
+  intros Hwf HI H E.
+  (* the invariant part is c7_step_spec; redo the case analysis for SV *)
+  unfold c7_step in E.
+  destruct (field_by_number (get_class sc c) (pnum p)) as [[i f]|] eqn:Hfb.
+  2:{ eexists. split; [exact E|]. split; [eapply InvS_flags; exact HI|]. split; [exact H | reflexivity]. }
+  destruct (wire_type_fits f (pwt p)) eqn:Hfit; cbn [negb] in E.
+  2:{ eexists. split; [exact E|]. split; [eapply InvS_flags; exact HI|]. split; [exact H | reflexivity]. }
+  destruct (field_by_number_some _ _ _ _ Hfb) as (Hf & _).
+  destruct (c7_value fuel' sc f p) as [value|] eqn:Ev; cbn [bind] in E; [|discriminate].
+  pose proof (wf_field_of sc c i f Hwf Hf) as Hwff.
+  destruct (fgroup f) as [g|] eqn:Hg.
+  - (* a oneof member: every value involved is a value, the assignment goes through __setattr__ *)
+    destruct (wf_member_shape sc _ f g Hwff Hg) as (_ & _ & _ & Hm).
+    pose proof (c7_value_vok _ _ _ _ _ _ _ Hwff Hg Hfit Ev) as Hvv.
+    pose proof (member_default_vok sc c i f g Hwf Hf Hg) as Hdv.
+    assert (Hmid : exists o1 current,
+       (match getattr sc (Obj c raw sow unk cur) i with
+        | (o', Ok cur_v) => (o', cur_v)
+        | (_, Err _) => (setattr sc (Obj c raw sow unk cur) i (default_of sc f), default_of sc f)
+        end) = (o1, current) /\ InvS sc o1 /\ SV o1 /\ ocls o1 = c /\ vok current = true).
+    { destruct (getattr_cases'' sc c raw sow unk cur i) as [(e & Eg) | (f' & w & Hf' & Hs & Hcase)].
+      - rewrite Eg. eexists _, _. split; [reflexivity|]. split; [apply InvS_setattr; exact HI|].
+        split; [apply SV_setattr; auto|]. split; [apply setattr_shape | exact Hdv].
+      - rewrite Hf in Hf'. injection Hf' as <-.
+        destruct Hcase as [(Hw & Hnp & Eg) | (Hw & Eg)]; rewrite Eg; eexists _, _; (split; [reflexivity|]).
+        + split; [exact HI|]. split; [exact H|]. split; [reflexivity|].
+          subst w. apply (H g i). unfold which_one_of. cbn [ocur].
+          unfold group_selects in Hs. rewrite Hg in Hs.
+          destruct (opt_nat_eqb (nth g cur None) (Some i)) eqn:Eo; [|congruence].
+          apply opt_nat_eqb_eq in Eo. exact Eo.
+        + split; [eapply InvS_set_readable; eauto|]. split; [eapply SV_set; eauto; congruence|].
+          split; [reflexivity | congruence]. }
+    destruct Hmid as (o1 & current & Hm1 & HI1 & H1 & Hc1 & Hcv). rewrite Hm1 in E. clear Hm1.
+    destruct o1 as [c1 raw1 sow1 unk1 cur1]. cbn [ocls] in Hc1. subst c1. rewrite Hm in E.
+    assert (Hfin : k (setattr sc (Obj c raw1 sow1 unk1 cur1) i value) = Ok a ->
+                   exists o', k o' = Ok a /\ InvS sc o' /\ SV o' /\ ocls o' = c).
+    { intros E'. eexists. split; [exact E'|]. split; [apply InvS_setattr; exact HI1|].
+      split; [apply SV_setattr; auto | apply setattr_shape]. }
+    destruct current; try discriminate; apply Hfin; exact E.
+  - (* not in a group: its raw attribute is never a selected one *)
+    assert (Hmid : exists raw1 sow1 cur1 current,
+       (match getattr sc (Obj c raw sow unk cur) i with
+        | (o', Ok cur_v) => (o', cur_v)
+        | (_, Err _) => (setattr sc (Obj c raw sow unk cur) i (default_of sc f), default_of sc f)
+        end) = (Obj c raw1 sow1 unk cur1, current) /\
+       InvS sc (Obj c raw1 sow1 unk cur1) /\ SV (Obj c raw1 sow1 unk cur1)).
+    { destruct (SV_getattr_gen sc c raw sow unk cur i Hwf HI H) as (HIg & Hg').
+      destruct (getattr sc (Obj c raw sow unk cur) i) as [o1 [w|e]] eqn:Eg; cbn [fst] in *.
+      - destruct (getattr_shape _ _ _ _ _ _ _ _ _ Eg) as (raw1 & ->). eexists _, _, _, _. split; [reflexivity|]. auto.
+      - pose proof (InvS_setattr sc (Obj c raw sow unk cur) i (default_of sc f) HI) as HIs.
+        assert (Hs : SV (setattr sc (Obj c raw sow unk cur) i (default_of sc f))).
+        { apply SV_setattr; auto. intros (f0 & g0 & Hf0 & Hg0). unfold cfs in Hf0. cbn [ocls] in Hf0. congruence. }
+        destruct (setattr_shape sc (Obj c raw sow unk cur) i (default_of sc f)) as (Hcl & Hu).
+        destruct (setattr sc (Obj c raw sow unk cur) i (default_of sc f)) as [c1 raw1 sow1 unk1 cur1].
+        cbn [ocls ounk] in *. subst c1 unk1. eexists _, _, _, _. split; [reflexivity|]. auto. }
+    destruct Hmid as (raw1 & sow1 & cur1 & current & Hm1 & HI1 & H1). rewrite Hm1 in E. clear Hm1.
+    assert (Hun : forall g0, nth g0 cur1 None <> Some i).
+    { exact (ungrouped_unselected sc c raw1 sow1 unk cur1 i f HI1 Hf Hg). }
+    assert (Hvis : forall x, InvS sc (Obj c (set_nth i x raw1) sow1 unk cur1) /\ SV (Obj c (set_nth i x raw1) sow1 unk cur1)).
+    { intros x. split; [|eapply SV_set_unselected; eauto].
+      eapply InvS_set_visible; eauto. intros g0 Hg0. congruence. }
+    assert (Hfin : k (setattr sc (Obj c raw1 sow1 unk cur1) i value) = Ok a ->
+                   exists o', k o' = Ok a /\ InvS sc o' /\ SV o' /\ ocls o' = c).
+    { intros E'. eexists. split; [exact E'|]. split; [apply InvS_setattr; exact HI1|].
+      split; [|apply setattr_shape]. apply SV_setattr; auto.
+      intros (f0 & g0 & Hf0 & Hg0). unfold cfs in Hf0. cbn [ocls] in Hf0. congruence. }
+    destruct (ptype_eqb (fty f) TMap).
+    + destruct value; try discriminate. destruct current; try discriminate.
+      destruct (getattr sc o 0) as [? [k0|]]; try discriminate.
+      destruct (getattr sc o 1) as [? [v0|]]; try discriminate.
+      eexists. split; [exact E|]. destruct (Hvis (PDict (dict_set l sc k0 v0))). auto.
+    + destruct current; try (apply Hfin; exact E).
+      eexists. split; [exact E|].
+      match type of E with k (Obj c (set_nth i ?X raw1) _ _ _) = _ => destruct (Hvis X) end. auto.
+Qed.
+
+Lemma c7_loop_sv fuel' sc size c : wf_schema sc = true -> forall n o s read o' s',
+  InvS sc o -> SV o -> ocls o = c ->
+  c7_loop fuel' sc size (get_class sc c) n o s read = Ok (o', s') -> SV o'.
+Proof.
+  intros Hwf. induction n as [|n IH]; intros o s read o' s' HI H Hc E; [discriminate|].
+  cbn [c7_loop] in E. destruct s as [|b s].
+  - assert (E' : Ok (o, @nil byte) = Ok (o', s')).
+    { destruct size as [sz|]; [|exact E]. destruct (read <? sz); [discriminate | exact E]. }
+    injection E' as <- <-. exact H.
+  - destruct (load_varint (b :: s)) as [[[nw r] s1]|] eqn:Ev; cbn [bind] in E; [|discriminate].
+    destruct (load_field fuel' s1 nw r) as [[p s2]|] eqn:Ef; cbn [bind] in E; [|discriminate].
+    match type of E with (do read <- ?R; _) = _ => destruct R as [read'|] eqn:Er end; cbn [bind] in E; [|discriminate].
+    destruct o as [c0 raw sow unk cur]. cbn [ocls] in Hc. subst c0.
+    apply c7_step_sv in E; auto. destruct E as (o1 & E & HI1 & H1 & Hc1).
+    destruct (match size with Some sz => read' =? sz | None => false end).
+    + injection E as <- <-. exact H1.
+    + eapply IH; eauto.
+Qed.
+
+Lemma SV_parse_into sc o bs o' :
+  wf_schema sc = true -> InvS sc o -> SV o -> parse_into sc o bs = Ok o' -> SV o'.
+Proof.
+  unfold parse_into. intros Hwf HI H E.
+  destruct (load _ sc o bs None) as [[o1 s1]|] eqn:El; cbn [bind] in E; [|discriminate].
+  injection E as <-. destruct o as [c raw sow unk cur]. rewrite load_unfold in El.
+  exact (c7_loop_sv _ sc None c Hwf _ (Obj c raw true unk cur) _ _ _ _
+           (InvS_flags sc c raw sow true unk unk cur HI) H eq_refl El).
+Qed.
+
+Lemma SV_new sc c : SV (new sc c).
+Proof. apply (SV_iff sc). apply selected_values_ok_new. Qed.
+
+(* ---- operations whose assigned values are values ---- *)
+Definition is_member (sc : schema) (c i : nat) : Prop :=
+  exists f g, nth_error (cfields (get_class sc c)) i = Some f /\ fgroup f = Some g.
+
+Definition op_ok (sc : schema) (c : nat) (p : op7) : Prop :=
+  match p with
+  | OBase (OSet [] i v) => is_member sc c i -> vok v = true
+  | OConstruct kw | OFromDictCls kw | OFromDictInst kw => kw_ok sc c kw
+  | _ => True
+  end.
+
+Lemma step7_cls sc o p o' x : InvS sc o -> step7 sc o p = Ok (o', x) -> ocls o' = ocls o.
+Proof.
+  intros HI E. destruct p as [p|kw|kw|kw]; cbn [step7] in E.
+  2:{ injection E as <- _. reflexivity. }
+  2:{ injection E as <- _. unfold from_dict_cls.
+      assert (G : forall o0, ocls (set_sow o0) = ocls o0) by (intros []; reflexivity).
+      rewrite G. unfold construct. apply post_init_shape. }
+  2:{ injection E as <- _. unfold from_dict_inst, setattrs.
+      assert (G : forall kw o0, ocls (fold_left (fun o1 '(i, v) => setattr sc o1 i v) kw o0) = ocls o0).
+      { clear. induction kw as [|[i v] kw IH]; intros o0; cbn [fold_left]; [reflexivity|].
+        rewrite IH. apply setattr_shape. }
+      rewrite G. destruct o; reflexivity. }
+  destruct p; cbn [step] in E.
+  - destruct path as [|j path]; cbn [set_in bind] in E.
+    + injection E as <- _. apply setattr_shape.
+    + destruct o as [c raw sow unk cur].
+      destruct (getattr sc (Obj c raw sow unk cur) j) as [o1 r] eqn:Eg.
+      destruct (getattr_shape _ _ _ _ _ _ _ _ _ Eg) as (raw1 & ->).
+      destruct r as [w|]; [|discriminate]. destruct w; try discriminate.
+      destruct (set_in sc o path i v); cbn [bind] in E; [|discriminate]. injection E as <- _. reflexivity.
+  - destruct path as [|j path]; cbn [get_in] in E.
+    + pose proof (getattr_cls sc o i) as G. destruct (getattr sc o i). injection E as <- _. exact G.
+    + destruct o as [c raw sow unk cur].
+      destruct (getattr sc (Obj c raw sow unk cur) j) as [o1 r] eqn:Eg.
+      destruct (getattr_shape _ _ _ _ _ _ _ _ _ Eg) as (raw1 & ->).
+      destruct r as [w|]; [|injection E as <- _; reflexivity].
+      destruct w; try (injection E as <- _; reflexivity).
+      destruct (get_in sc o path i). injection E as <- _. reflexivity.
+  - destruct (parse_into sc o bs) as [o1|] eqn:Ep; cbn [bind] in E; [|discriminate].
+    injection E as <- _. eapply InvS_parse_into; eauto.
+  - injection E as <- _. destruct o; reflexivity.
+  - injection E as <- _. destruct o; reflexivity.
+  - destruct (pickle_rt sc o) as [o1|] eqn:Ep; cbn [bind] in E; [|discriminate].
+    injection E as <- _. eapply InvS_pickle; eauto.
+  - destruct (enc_obj sc o); cbn [bind] in E; [|discriminate]. injection E as <- _. destruct o; reflexivity.
+  - destruct (enc_obj sc o); cbn [bind] in E; [|discriminate]. injection E as <- _. destruct o; reflexivity.
+  - destruct (enc_obj sc o); cbn [bind] in E; [|discriminate]. injection E as <- _. destruct o; reflexivity.
+  - injection E as <- _. reflexivity.
+  - injection E as <- _. reflexivity.
+Qed.
+
+Lemma SV_step7 sc o p o' x :
+  wf_schema sc = true -> InvS sc o -> SV o -> op_ok sc (ocls o) p -> step7 sc o p = Ok (o', x) -> SV o'.
+Proof.
+  intros Hwf HI H Hp E. destruct p as [p|kw|kw|kw]; cbn [step7] in E.
+  2:{ injection E as <- _. apply SV_construct; auto. }
+  2:{ injection E as <- _. unfold from_dict_cls.
+      pose proof (SV_construct sc (ocls o) kw Hwf Hp) as Hs. destruct (construct sc (ocls o) kw). exact Hs. }
+  2:{ injection E as <- _. unfold from_dict_inst.
+      assert (HI0 : InvS sc (set_sow o)) by (apply InvS_set_sow; exact HI).
+      assert (H0 : SV (set_sow o)) by (destruct o; exact H).
+      apply (SV_setattrs sc kw (set_sow o) HI0 H0).
+      intros i v Hin Hm. apply (Hp i v Hin). unfold cfs in Hm. destruct o; exact Hm. }
+  destruct p; cbn [step] in E.
+  - destruct (set_in sc o path i v) as [o1|] eqn:Es; cbn [bind] in E; [|discriminate].
+    injection E as <- _. eapply SV_set_in; eauto. intros -> Hm. apply Hp. exact Hm.
+  - pose proof (SV_get_in sc path o i Hwf HI H) as G. destruct (get_in sc o path i). injection E as <- _. exact G.
+  - destruct (parse_into sc o bs) as [o1|] eqn:Ep; cbn [bind] in E; [|discriminate].
+    injection E as <- _. eapply SV_parse_into; eauto.
+  - injection E as <- _. apply SV_copy; auto.
+  - injection E as <- _. apply SV_deepcopy; auto.
+  - destruct (pickle_rt sc o) as [o1|] eqn:Ep; cbn [bind] in E; [|discriminate].
+    injection E as <- _. unfold pickle_rt in Ep. destruct (enc_obj sc o); cbn [bind] in Ep; [|discriminate].
+    unfold parse in Ep. exact (SV_parse_into sc _ _ _ Hwf (InvS_new sc (ocls o)) (SV_new sc (ocls o)) Ep).
+  - destruct (enc_obj sc o); cbn [bind] in E; [|discriminate]. injection E as <- _. apply SV_touch; auto.
+  - destruct (enc_obj sc o); cbn [bind] in E; [|discriminate]. injection E as <- _. apply SV_touch; auto.
+  - destruct (enc_obj sc o); cbn [bind] in E; [|discriminate]. injection E as <- _. apply SV_touch; auto.
+  - injection E as <- _. exact H.
+  - injection E as <- _. exact H.
+Qed.
+
+Lemma SV_run7 sc c ops : wf_schema sc = true -> forall o o',
+  InvS sc o -> SV o -> ocls o = c -> Forall (op_ok sc c) ops -> run7 sc o ops = Ok o' ->
+  InvS sc o' /\ SV o' /\ ocls o' = c.
+Proof.
+  intros Hwf. induction ops as [|p ops IH]; intros o o' HI H Hc Hok E; cbn [run7] in E.
+  - injection E as <-. auto.
+  - destruct (step7 sc o p) as [[o1 x]|] eqn:Es; cbn [bind] in E; [|discriminate].
+    inversion Hok as [|? ? Hp Hrest]; subst.
+    eapply IH; [| | | exact Hrest | exact E].
+    + eapply InvS_step7; eauto.
+    + eapply SV_step7; eauto.
+    + eapply step7_cls; eauto.
+Qed.
+
+(* ---- the observable theorems after every history ---- *)
+Theorem observable_reachable sc c ops o bs :
+  wf_schema sc = true -> Forall (op_ok sc c) ops -> run7 sc (new sc c) ops = Ok o -> enc_obj sc o = Ok bs ->
+  exists body rs,
+    bs = body ++ ounk o /\ records body = Some rs /\
+    forall g, (g < cngroups (get_class sc (ocls o)))%nat ->
+      match which_one_of o g with
+      | Some i =>
+          exists f, nth_error (cfs sc o) i = Some f /\ In (fnum f) (numbers rs) /\
+                    forall j f', j <> i -> nth_error (cfs sc o) j = Some f' -> fgroup f' = Some g ->
+                                 ~ In (fnum f') (numbers rs)
+      | None =>
+          forall j f', nth_error (cfs sc o) j = Some f' -> fgroup f' = Some g -> ~ In (fnum f') (numbers rs)
+      end.
+Proof.
+  intros Hwf Hok Er E.
+  destruct (SV_run7 sc c ops Hwf (new sc c) o (InvS_new sc c) (SV_new sc c) eq_refl Hok Er) as (HI & H & _).
+  apply observable; auto using Inv_of_InvS. apply SV_iff. exact H.
+Qed.
+
+Theorem selected_values_reachable sc c ops o :
+  wf_schema sc = true -> Forall (op_ok sc c) ops -> run7 sc (new sc c) ops = Ok o -> selected_values_ok sc o.
+Proof.
+  intros Hwf Hok Er.
+  destruct (SV_run7 sc c ops Hwf (new sc c) o (InvS_new sc c) (SV_new sc c) eq_refl Hok Er) as (_ & H & _).
+  apply SV_iff. exact H.
+Qed.
